@@ -50,33 +50,38 @@ def scanStr (delim : UInt8) (rest : Bytes) : Bytes × Bytes :=
   | _ :: r => (body, r)
   | [] => (body.dropLast, [])
 
+/-- one token of a chunk that does not start with white space: (token, text after it, go on?);
+    `none` = end of input; an unlexable remainder is a final `other` token -/
+def lexStep : Bytes → Option (Tok × Bytes × Bool)
+  | [] => none
+  | 44 :: r => some (.comma, r, true)
+  | 40 :: r => some (.lparen, r, true)
+  | 41 :: r => some (.rparen, r, true)
+  | 91 :: r => some (.lbrack, r, true)
+  | 93 :: r => some (.rbrack, r, true)
+  | 124 :: r => some (.bor, r, true)
+  | 60 :: r => some (.lt, r, true)
+  | 62 :: r => some (.gt, r, true)
+  | 64 :: r => some (.at, r, true)
+  | 63 :: r => some (.opt, r, true)
+  | 58 :: r => some (.colon, r, true)
+  | 46 :: 46 :: 46 :: r => some (.vararg, r, true)
+  | 39 :: r => some (.str (scanStr 39 r).1, (scanStr 39 r).2, true)
+  | 34 :: r => some (.str (scanStr 34 r).1, (scanStr 34 r).2, true)
+  | ch :: r =>
+    if isIdStart ch then
+      let w := ch :: r.takeWhile isIdCont
+      some (match kwOf w with | some k => Tok.kw k | none => Tok.ident w, r.dropWhile isIdCont, true)
+    else some (.other (ch :: r), ch :: r, false)
+
 /-- tokens with, for each token, the raw text that follows it -/
 def lexLine : Nat → Bytes → List (Tok × Bytes)
   | 0, _ => []
   | fuel + 1, chunk =>
-    let c := chunk.dropWhile isWs
-    match c with
-    | [] => []
-    | 44 :: r => (.comma, r) :: lexLine fuel r
-    | 40 :: r => (.lparen, r) :: lexLine fuel r
-    | 41 :: r => (.rparen, r) :: lexLine fuel r
-    | 91 :: r => (.lbrack, r) :: lexLine fuel r
-    | 93 :: r => (.rbrack, r) :: lexLine fuel r
-    | 124 :: r => (.bor, r) :: lexLine fuel r
-    | 60 :: r => (.lt, r) :: lexLine fuel r
-    | 62 :: r => (.gt, r) :: lexLine fuel r
-    | 64 :: r => (.at, r) :: lexLine fuel r
-    | 63 :: r => (.opt, r) :: lexLine fuel r
-    | 58 :: r => (.colon, r) :: lexLine fuel r
-    | 46 :: 46 :: 46 :: r => (.vararg, r) :: lexLine fuel r
-    | 39 :: r => let (s, r') := scanStr 39 r; (.str s, r') :: lexLine fuel r'
-    | 34 :: r => let (s, r') := scanStr 34 r; (.str s, r') :: lexLine fuel r'
-    | ch :: r =>
-      if isIdStart ch then
-        let w := ch :: r.takeWhile isIdCont
-        let r' := r.dropWhile isIdCont
-        (match kwOf w with | some k => Tok.kw k | none => Tok.ident w, r') :: lexLine fuel r'
-      else [(.other (ch :: r), ch :: r)]
+    match lexStep (chunk.dropWhile isWs) with
+    | none => []
+    | some (t, r, true) => (t, r) :: lexLine fuel r
+    | some (t, r, false) => [(t, r)]
 
 /-! ### types -/
 
